@@ -14,6 +14,7 @@ REGISTRY = {
     "C01": "kverif.props.codec:run_c01",
     "C02": "kverif.props.codec:run_c02",
     "C03": "kverif.props.codec:run_c03",
+    "C04": "kverif.props.generator:run_c04",
     "C05": "kverif.props.codec:run_c05",
     "C06": "kverif.props.faults:run_c06",
     "C07": "kverif.props.stream:run_c07",
@@ -25,6 +26,7 @@ REGISTRY = {
     "C13": "kverif.props.config:run_c13",
     "C14": "kverif.props.config:run_c14",
     "C15": "kverif.props.immut:run_c15",
+    "C16": "kverif.props.generator:run_c16",
     "C17": "kverif.props.records:run_c17",
     "C19": "kverif.props.state:run_c19",
     "C18": "kverif.props.records:run_c18",
